@@ -309,5 +309,28 @@ func vC06Serve(k int) {
 	vReach("c06.serve")
 }
 
+// A flush request is a request like any other as far as its own tag goes: if
+// it reuses a tag that is still outstanding it is answered with duplicate tag,
+// nothing is flushed, and the original request is not disturbed.
+func VerifC06_DupFlush() {
+	s := newVSrv(1)
+	t := Tag(ndU16("tag"))
+	mark, pay := ndU64("marker"), ndU32("payload")
+	s.ch.fromPeer <- vReq(0, t, mark)
+	<-s.h.started
+	old := Tag(ndU16("oldtag")) // the outstanding tag or any other
+	s.ch.fromPeer <- &Fcall{Type: Tflush, Tag: t, Message: MessageTflush{Oldtag: old}}
+	r := <-s.ch.toPeer
+	vAssert(r.Tag == t, "C06: the reply to the duplicate-tag flush carries its tag")
+	re, ok := r.Message.(MessageRerror)
+	vAssert(ok && re == ErrDuptag.(MessageRerror), "C06: a flush reusing an outstanding tag is answered with duplicate tag")
+	vAssert(s.h.ctxs[0].Err() == nil, "C06: a rejected duplicate-tag request does not disturb the original (its context stays live)")
+	s.h.release[0] <- vResFor(0, pay, "")
+	r2 := <-s.ch.toPeer
+	vCheckResp(r2, t, 0, pay, "", "original after a duplicate-tag flush")
+	s.vNoMoreReplies("C06: exactly one reply per request")
+	vReach("c06.dupflush")
+}
+
 func VerifC06_ServeQuick()    { vC06Serve(2) }
 func VerifC06_ServeThorough() { vC06Serve(3) }
